@@ -7,5 +7,5 @@ import "net"
 // VerifServeConn serves one caller-supplied connection synchronously through
 // the real connection loop (verification builds only).
 func (server *Server) VerifServeConn(conn net.Conn) error {
-	return server.receive(conn, nil)
+	return server.receive(conn, nil, server.ConnManager.Epoch())
 }
